@@ -171,6 +171,9 @@ def cutByte (s : Bytes) (sep : Byte) : Bytes × Option Bytes :=
 
 def containsByte (s : Bytes) (b : Byte) : Bool := s.any (· == b)
 
+/-- `printable` (conn.go): what is quoted from the peer's command in a reply, control octets (other than HT) and DEL replaced by `?` -/
+def printable (s : Bytes) : Bytes := s.map (fun b => if (b.toNat < 32 && b != 9) || b == 127 then 63 else b)
+
 /-! ### numbers -/
 
 def isDigit (b : Byte) : Bool := 48 ≤ b.toNat && b.toNat ≤ 57
